@@ -416,3 +416,123 @@ ASSUMPTIONS = [
 ]
 FUNCTIONS = ['pyx12/x12file.py:X12Base._parse_segment', 'pyx12/x12file.py:X12Reader._parse_segment', 'pyx12/x12file.py:X12Reader.cleanup',
              'pyx12/x12file.py:X12Base._int']
+
+
+# ------------------------------------------------------------------ sequences from the real initial state (reachability of Inv, cross-check)
+SEQ_SEGS = (
+    ('ISA', '1'), ('ISA', '2'), ('GS', '1'), ('GS', '2'), ('ST', '1'), ('ST', '2'), ('SE', '2', '1'), ('SE', '3', '1'), ('SE', '2', '2'),
+    ('GE', '1', '1'), ('GE', '0', '1'), ('GE', '1', '2'), ('IEA', '1', '1'), ('IEA', '0', '1'), ('IEA', '1', '2'), ('REF',), ('HL', '1', ''), ('HL', '2', '1'),
+    ('HL', '2', '5'),
+)
+NSEQ = len(SEQ_SEGS)
+SEQLEN = P('seqlen', 3)
+PREFIX = P('prefix', 0)
+
+
+def _mk_seq_seg(t):
+    if t[0] == 'ISA':
+        return isa_seg(t[1])
+    if t[0] == 'GS':
+        return seg_of('GS', 'HC', 'S', 'R', '20040608', '1333', t[1], 'X', '004010X098A1')
+    if t[0] == 'ST':
+        return seg_of('ST', '837', t[1])
+    if t[0] == 'REF':
+        return seg_of('REF', '87', 'X')
+    if t[0] == 'HL':
+        return seg_of('HL', t[1], t[2], '20', '1')
+    return seg_of(t[0], t[1], t[2])
+
+
+def recount(tokens):
+    """Independent recount of a whole segment sequence (from the property statement, not from the code): multiset of envelope error codes."""
+    errs = []
+    stack = []                      # (type, id)
+    isa_ids, gs_ids, st_ids = [], [], []
+    n_gs = n_st = n_seg = n_hl = 0
+    hl_open = []
+    parent_of = {'ISA': None, 'GS': 'ISA', 'ST': 'GS'}
+    lvl_err = {'ISA': ('isa', '024'), 'GS': ('gs', '3'), 'ST': ('st', '2')}
+    for t in tokens:
+        k = t[0]
+        top = stack[-1][0] if stack else None
+        if k in ('ISA', 'GS', 'ST'):
+            if top != parent_of[k]:
+                errs.append(lvl_err[k])                      # header inside an unterminated / outside its parent envelope
+            ids = {'ISA': isa_ids, 'GS': gs_ids, 'ST': st_ids}[k]
+            if t[1] in ids:
+                errs.append({'ISA': ('isa', '025'), 'GS': ('gs', '6'), 'ST': ('st', '23')}[k])
+            ids.append(t[1])
+            stack.append((k, t[1]))
+            if k == 'ISA':
+                n_gs, gs_ids[:] = 0, []
+            elif k == 'GS':
+                n_gs += 1
+                n_st, st_ids[:] = 0, []
+            else:
+                n_st += 1
+                n_seg, n_hl, hl_open = 1, 0, []
+        elif k in ('SE', 'GE', 'IEA'):
+            want = {'SE': 'ST', 'GE': 'GS', 'IEA': 'ISA'}[k]
+            if not stack:
+                errs.append({'SE': ('st', '3'), 'GE': ('gs', '3'), 'IEA': ('isa', '024')}[k])
+                continue
+            if k == 'SE':
+                if stack[-1][0] != 'ST' or stack[-1][1] != t[2]:
+                    errs.append(('st', '3'))
+                if not (t[1].isdigit() and int(t[1]) == n_seg + 1):
+                    errs.append(('st', '4'))
+                stack.pop()
+                continue
+            if stack[-1][0] != want:
+                errs.append(('gs', '3') if k == 'GE' else ('isa', '024'))
+                stack.pop()
+                if not stack:
+                    errs.append(('gs', '3') if k == 'GE' else ('isa', '024'))
+                    continue
+            if stack[-1][1] != t[2]:
+                errs.append(('gs', '4') if k == 'GE' else ('isa', '001'))
+            actual = n_st if k == 'GE' else n_gs
+            if not (t[1].isdigit() and int(t[1]) == actual):
+                errs.append(('gs', '5') if k == 'GE' else ('isa', '021'))
+            stack.pop()
+        elif k == 'HL':
+            n_hl += 1
+            n_seg += 1
+            if not (t[1].isdigit() and int(t[1]) == n_hl):
+                errs.append(('seg', 'HL1'))
+            if t[2] != '':
+                par = int(t[2]) if t[2].isdigit() else None
+                if par not in hl_open:
+                    errs.append(('seg', 'HL2'))
+                while hl_open and hl_open[-1] != par:
+                    hl_open.pop()
+            hl_open.append(n_hl)
+        else:
+            n_seg += 1
+    for (typ, ident) in stack:
+        errs.append({'ISA': ('isa', '023'), 'GS': ('gs', '3'), 'ST': ('st', '2')}[typ])
+    return sorted(errs)
+
+
+PREFIXES = ((), (('ISA', '1'),), (('ISA', '1'), ('GS', '1')), (('ISA', '1'), ('GS', '1'), ('ST', '1')))
+
+
+def h_sequence(a: int, b: int, c: int) -> bool:
+    '''
+    pre: 0 <= a < NSEQ and 0 <= b < NSEQ and 0 <= c < NSEQ
+    pre: SEQLEN >= 3 or c == 15
+    post: _
+    '''
+    # a fresh reader, a well-nested prefix (shard), then two or three segments chosen symbolically, then end of input:
+    # the envelope errors reported over the whole run equal the independent recount
+    toks = list(PREFIXES[PREFIX]) + [SEQ_SEGS[a], SEQ_SEGS[b]] + ([SEQ_SEGS[c]] if SEQLEN >= 3 else [])
+    r = mk_reader(0, '', '', '', [], [], 0)
+    for t in toks:
+        r._parse_segment(_mk_seq_seg(t))
+    r.cleanup()
+    return codes(r) == recount(toks)
+
+
+for _p in range(4):
+    OBLIGATIONS.append(_ob('sequence2_prefix%d' % _p, 'h_sequence', 'quick', 1800, seqlen=2, prefix=_p))
+    OBLIGATIONS.append(_ob('sequence3_prefix%d' % _p, 'h_sequence', 'thorough', 7200, seqlen=3, prefix=_p))
